@@ -85,10 +85,11 @@ PROPS = {
         theorems={JOIN: ["C06_delta_keys"], VALUES: ["C06_merge_later_wins", "C16_merge_preserves_values"], HISTORY: ["C18_context_fixed"],
                   ANCESTRY: ["C06_offer_snapshots_from_ancestors", "C06_snapshots_reach_along_true_transitions", "C06_publications_append_only",
                              "C06_offer_inherits_predecessor_snapshots", "C06_predecessor_snapshots_inherited",
-                             "C06_offer_context_is_overlay", "C06_offer_context_from_ancestors"]},
+                             "C06_offer_context_is_overlay", "C06_offer_context_from_ancestors",
+                             "C06_published_snapshots_listed", "C06_offer_context_exact"]},
         keys=["contexts", "sequence", "staged", "output"], offers="full",
         prof=dict(p_publish=0.8, p_clash=0.4, p_items=0.05, p_retry=0.05, p_template=0.35, templates=[6, 6, 6, 0, 2, 5, 7, 13, 13], p_null_over=0.3), hist=dict(p_fail=0.15, p_rerun=0.3),
-        monitor="C06", unproven=["that the snapshot a predecessor publishes on the very transition is listed by the entry it stages (only monitored) and the supersession order of the overlay (D7) are not proved; proved: every listed snapshot is the initial one or reached the task along satisfied transitions, and everything a listed predecessor saw is listed"],
+        monitor="C06", unproven=["the supersession order of the overlay (which of two independent values wins; violated by D7) and completeness with respect to predecessors the barrier counts but the entry does not name (false: D27) are not proved; proved along every history: the offered context is the overlay of exactly the listed snapshots, which are the initial one, what every named predecessor saw and what it published on the way, and nothing that did not reach the task along a satisfied transition"],
     ),
     "C07": dict(
         title="join runs once and only when satisfied",
